@@ -290,12 +290,12 @@ func fileLockIsStale(meta lockMeta) bool {
 // identified by filename. A successfully created
 // lockfile should be removed with removeLockfile.
 func createLockfile(filename string) error {
-	err := atomicallyCreateFile(filename, true)
+	created, err := atomicallyCreateFile(filename, true)
 	if err != nil {
 		return err
 	}
 
-	go keepLockfileFresh(filename)
+	go keepLockfileFresh(filename, created)
 
 	return nil
 }
@@ -306,8 +306,9 @@ func createLockfile(filename string) error {
 // or when there is an error at any point. Since it polls
 // every lockFreshnessInterval, this function might
 // not terminate until up to lockFreshnessInterval after
-// the lock is released.
-func keepLockfileFresh(filename string) {
+// the lock is released. created is the creation timestamp
+// written into the lock file this function is to maintain.
+func keepLockfileFresh(filename string, created time.Time) {
 	defer func() {
 		if err := recover(); err != nil {
 			buf := make([]byte, stackTraceBufferSize)
@@ -318,7 +319,7 @@ func keepLockfileFresh(filename string) {
 
 	for {
 		time.Sleep(lockFreshnessInterval)
-		done, err := updateLockfileFreshness(filename)
+		done, err := updateLockfileFreshness(filename, created)
 		if err != nil {
 			log.Printf("[ERROR] Keeping lock file fresh: %v - terminating lock maintenance (lockfile: %s)", err, filename)
 			return
@@ -332,7 +333,7 @@ func keepLockfileFresh(filename string) {
 // updateLockfileFreshness updates the lock file at filename
 // with the current timestamp. It returns true if the parent
 // loop can terminate (i.e. no more need to update the lock).
-func updateLockfileFreshness(filename string) (bool, error) {
+func updateLockfileFreshness(filename string, created time.Time) (bool, error) {
 	f, err := os.OpenFile(filename, os.O_RDWR, 0644)
 	if os.IsNotExist(err) {
 		return true, nil // lock released
@@ -352,6 +353,11 @@ func updateLockfileFreshness(filename string) (bool, error) {
 		// see issue #232: this can error if the file is empty,
 		// which happens sometimes when the disk is REALLY slow
 		return true, err
+	}
+	if !meta.Created.Equal(created) {
+		// our lock was released (or removed as stale) and the file
+		// now belongs to another acquirer; it is not ours to keep fresh
+		return true, nil
 	}
 
 	// truncate file and reset I/O offset to beginning
@@ -377,29 +383,30 @@ func updateLockfileFreshness(filename string) (bool, error) {
 
 // atomicallyCreateFile atomically creates the file
 // identified by filename if it doesn't already exist.
-func atomicallyCreateFile(filename string, writeLockInfo bool) error {
+// It returns the creation timestamp written into the file.
+func atomicallyCreateFile(filename string, writeLockInfo bool) (time.Time, error) {
 	// no need to check this error, we only really care about the file creation error
 	_ = os.MkdirAll(filepath.Dir(filename), 0700)
 	f, err := os.OpenFile(filename, os.O_CREATE|os.O_WRONLY|os.O_EXCL, 0644)
 	if err != nil {
-		return err
+		return time.Time{}, err
 	}
 	defer f.Close()
+	now := time.Now()
 	if writeLockInfo {
-		now := time.Now()
 		meta := lockMeta{
 			Created: now,
 			Updated: now,
 		}
 		if err := json.NewEncoder(f).Encode(meta); err != nil {
-			return err
+			return now, err
 		}
 		// see https://github.com/caddyserver/caddy/issues/3954
 		if err := f.Sync(); err != nil {
-			return err
+			return now, err
 		}
 	}
-	return nil
+	return now, nil
 }
 
 // homeDir returns the best guess of the current user's home
